@@ -23,7 +23,7 @@ META = {
 
 PROFILE = {"n_states": (2, 5), "n_events": (1, 4), "extra_transitions": (1, 6), "p_multi_event": 0.35,
            "p_guard": 0.3, "p_validator": 0.08, "p_conv": 0.3, "p_inline": 0.4, "p_deco": 0.2,
-           "p_internal": 0.5, "p_self": 0.3, "providers": ["sm", "model", "l0", "l1"], "p_reuse_ref": 0.3}
+           "p_internal": 0.5, "p_self": 0.3, "providers": ["sm", "model", "l0", "l1"], "p_reuse_ref": 0.3, "p_sigdeco": 0.2}
 
 
 def owns(rule, flags):
